@@ -56,7 +56,8 @@ def _leave_loop(it, s):
 
 def run_stream(cfg, passes=1, observe=None, rng=None, record=False,
                extra_next=3, finalize_mode="eager", overshoot_steps=0,
-               protocol="next", late=0, refinalize=False, probe=False):
+               protocol="next", late=0, refinalize=False, probe=False,
+               after_build=None):
     """Drive one schedule to completion of `passes` adjoint calculations.
 
     observe: None | "flags" (is_exhausted/is_running before and after every
@@ -73,6 +74,13 @@ def run_stream(cfg, passes=1, observe=None, rng=None, record=False,
         res.construct_error = e
         return res
     res.stdout = out
+    if after_build is not None:
+        # e.g. a sibling schedule constructed after this one, before the
+        # first action is requested
+        try:
+            after_build()
+        except Exception:
+            pass
     ex = Executor(cfg, n_true, record=False)
     res.ex = ex
     want = default_passes(cfg, passes)
